@@ -318,6 +318,8 @@ def scalar_domain(curve, env, quick, group, fam):
           g.getrandbits(640) | (1 << 639)]
     # all-ones / just-below-a-power-of-two and sparse patterns (bit-length and window arithmetic)
     ns += [2**64 - 1, 2**100 - 3, 2**128 - 1, 2**200 - 1, 2**254 - 1, 2**64, 2**128 + 1, 2**255 - 19]
+    # equal hash() as the small scalars 2 and 3 (CPython hashes ints modulo 2^61 - 1)
+    ns += [2**61 - 1 + 2, 3 + 5 * (2**61 - 1)]
     if group == "E12" and fam == "ref":
         # reference FQ12 inversion costs ~10 ms: keep the long scalars for the thorough tier
         ns = [0, 1, 2, 3, 2**53 + 1] + ([] if quick else [r_ - 1, r_, r_ + 1, ns[-1]])
